@@ -33,30 +33,60 @@ class Ctl:
             self.count[k] = i + 1
             key = [k[0], k[1], i]
             self.keys.append(key)
-        if self.target is not None and key == list(self.target):
-            time.sleep(self.delay)
+        if self.target is None:
+            return
+        # one key [role, kind, i], or several of them (all are held); i == '*' holds every occurrence, briefly
+        targets = self.target if (self.target and isinstance(self.target[0], (list, tuple))) else [self.target]
+        for t in targets:
+            t = list(t)
+            if t == key:
+                time.sleep(self.delay)
+            elif t[2] == '*' and t[:2] == key[:2]:
+                time.sleep(self.delay / 8)
 
 
 def make_queue(ctl):
+    tl = threading.local()
+
     class StallQueue(queue.Queue):
+        def _in(self, f, *a, **k):
+            tl.inside = getattr(tl, 'inside', 0) + 1
+            try:
+                return f(*a, **k)
+            finally:
+                tl.inside -= 1
+
         def get(self, *a, **k):
-            item = super().get(*a, **k)
+            item = self._in(super().get, *a, **k)
             ctl.pt('after-get')
             return item
 
         def put(self, *a, **k):
             ctl.pt('before-put')
-            super().put(*a, **k)
+            self._in(super().put, *a, **k)
             ctl.pt('after-put')
 
         def task_done(self):
             ctl.pt('before-task_done')
-            super().task_done()
+            self._in(super().task_done)
             ctl.pt('after-task_done')
 
         def join(self):
-            super().join()
+            self._in(super().join)
             ctl.pt('after-join')
+
+        # the public counter, read without the queue's lock by code that polls instead of joining: a point like any other
+        # (the queue's own methods read it too, under the lock: those reads are not points)
+        @property
+        def unfinished_tasks(self):
+            v = self.__dict__.get('_ut', 0)
+            if not getattr(tl, 'inside', 0):
+                ctl.pt('after-peek')
+            return v
+
+        @unfinished_tasks.setter
+        def unfinished_tasks(self, v):
+            self.__dict__['_ut'] = v
     return StallQueue
 
 
@@ -96,8 +126,23 @@ def installed(ctl):
         if path == ctl.out_path and ('w' in mode or '+' in mode):
             return StallFile(ctl, f)
         return f
-    saved = [(cu, 'Queue', cu.__dict__.get('Queue')), (cv, 'open', cv.__dict__.get('open')), (cu, 'open', cu.__dict__.get('open'))]
+    saved = [(cu, 'Queue', cu.__dict__.get('Queue')), (cv, 'open', cv.__dict__.get('open')), (cu, 'open', cu.__dict__.get('open')),
+             (cu, 'Thread', cu.__dict__.get('Thread'))]
     cu.Queue = make_queue(ctl)
+
+    class StallThread(threading.Thread):
+        """a thread that is neither the compressor nor the writer (a helper some edit introduced) can be made to start late"""
+        def run(self):
+            name = getattr(getattr(self, '_target', None), '__name__', '')
+            if name not in ('compressor', 'writer'):
+                with ctl.lock:
+                    i = ctl.count.get(('helper', 'start'), 0)
+                    ctl.count[('helper', 'start')] = i + 1
+                    ctl.keys.append(['helper', 'start', i])
+                if ctl.target is not None and not isinstance(ctl.target[0], (list, tuple)) and list(ctl.target)[:2] == ['helper', 'start']:
+                    time.sleep(max(1.5, 6 * ctl.delay))
+            super().run()
+    cu.Thread = StallThread
     cv.open = mk_open
     cu.open = mk_open
     try:
